@@ -29,7 +29,8 @@ Record inval := { i_c : option conn; i_r : option rid; i_pos : nat; i_settled : 
 Record oblig := { o_c : conn; o_r : rid; o_pos : nat;
                   o_req : option nat;          (* the re-access request seen after the trigger *)
                   o_verdict : option bool;     (* Some true = grant *)
-                  o_unsub : bool }.            (* unsubscribe event seen after a non-grant verdict *)
+                  o_unsub : bool;              (* unsubscribe event seen after a non-grant verdict *)
+                  o_sub : option nat }.        (* Some id: opened for the subscription that request id is establishing *)
 
 Record astate := {
   base : mstate;
@@ -90,8 +91,17 @@ Definition data_for (r : rid) (rs : rset) : bool :=
 Definition req_of (st : astate) (c : conn) (id : nat) : option (rkind * rid * Z) :=
   fst (take_req c id (reqs (base st))).
 
+(* a subscribe request for r that the gateway has not answered yet: the subscription being established is subject to
+   re-access like an established one (the gateway re-checks it right after the response) *)
+Definition sub_pending (st : astate) (c : conn) (r : rid) : bool :=
+  existsb (fun x => Nat.eqb (fst x) c &&
+                    match snd (snd x) with (KSub, r', _) => Nat.eqb r' r | _ => false end) (reqs (base st)).
+
 Definition affected (st : astate) (c : conn) (r : rid) : bool :=
   negb (Nat.eqb (dcount (get_client (base st) c) r) 0).
+
+Definition req_open (st : astate) (c : conn) (id : nat) : bool :=
+  existsb (fun x => Nat.eqb (fst x) c && Nat.eqb (fst (snd x)) id) (reqs (base st)).
 
 (* open a revocation obligation for every direct subscription matched by the trigger *)
 Definition open_obligs (st : astate) (sel : conn -> rid -> bool) : list oblig :=
@@ -99,7 +109,7 @@ Definition open_obligs (st : astate) (sel : conn -> rid -> bool) : list oblig :=
     let '(c, cl) := cc in
     if Client.mem c (gone (base st)) then [] else
     flat_map (fun dr => if negb (Nat.eqb (snd dr) 0) && sel c (fst dr)
-                        then [{| o_c := c; o_r := fst dr; o_pos := apos st; o_req := None; o_verdict := None; o_unsub := false |}]
+                        then [{| o_c := c; o_r := fst dr; o_pos := apos st; o_req := None; o_verdict := None; o_unsub := false; o_sub := None |}]
                         else []) (direct cl)) (clients (base st)).
 
 Definition ev_pos_of (st : astate) (r : rid) (d : sevent) : option nat :=
@@ -148,7 +158,7 @@ Definition astep (st : astate) (e : tev) : astate :=
     | TEvUnsub c r _ =>
         upd st (base st) (areqs st) (invals st)
             (map (fun o => if Nat.eqb (o_c o) c && Nat.eqb (o_r o) r
-                           then {| o_c := o_c o; o_r := o_r o; o_pos := o_pos o; o_req := o_req o; o_verdict := o_verdict o; o_unsub := true |}
+                           then {| o_c := o_c o; o_r := o_r o; o_pos := o_pos o; o_req := o_req o; o_verdict := o_verdict o; o_unsub := true; o_sub := o_sub o |}
                            else o) (obligs st)) (toks st) (cur st) (evpos st)
     | TRawOut c leak => if leak then aviol_add st ACidLeak c 0 else st
     | _ => st
@@ -158,8 +168,19 @@ Definition astep (st : astate) (e : tev) : astate :=
   (* an obligation ends as soon as the client holds no direct subscription any more (unsubscribe event, its own
      unsubscribe request, disconnect) *)
   let st := upd st (base st) (areqs st) (invals st)
-                (map (fun o => if affected st (o_c o) (o_r o) then o
-                               else {| o_c := o_c o; o_r := o_r o; o_pos := o_pos o; o_req := o_req o; o_verdict := o_verdict o; o_unsub := true |})
+                (map (fun o =>
+                        match o_sub o with
+                        | Some id =>
+                            (* the subscription is still being established: the obligation stands; once the subscribe request
+                               is answered it becomes an ordinary one (or ends, when the subscribe failed) *)
+                            if req_open st (o_c o) id then o
+                            else if affected st (o_c o) (o_r o)
+                                 then {| o_c := o_c o; o_r := o_r o; o_pos := o_pos o; o_req := o_req o; o_verdict := o_verdict o; o_unsub := o_unsub o; o_sub := None |}
+                                 else {| o_c := o_c o; o_r := o_r o; o_pos := o_pos o; o_req := o_req o; o_verdict := o_verdict o; o_unsub := true; o_sub := None |}
+                        | None =>
+                            if affected st (o_c o) (o_r o) then o
+                            else {| o_c := o_c o; o_r := o_r o; o_pos := o_pos o; o_req := o_req o; o_verdict := o_verdict o; o_unsub := true; o_sub := None |}
+                        end)
                      (obligs st)) (toks st) (cur st) (evpos st) in
   match e with
   | TSched w => upd st (base st) (areqs st) (invals st) (obligs st) (toks st) w (evpos st)
@@ -171,6 +192,21 @@ Definition astep (st : astate) (e : tev) : astate :=
         upd st' (base st') (areqs st') ({| i_c := Some c; i_r := None; i_pos := apos st; i_settled := false |} :: invals st')
             (open_obligs st (fun c' _ => Nat.eqb c' c) ++ obligs st') (toks st') (cur st') (evpos st')
       else st'
+  | TReaccessDeferred c r =>
+      (* the gateway itself registered a trigger for a subscription that is still being established (no direct
+         subscription at the client yet) and deferred the re-check: it is owed once the subscribe request is answered *)
+      if negb (affected st c r) &&
+         negb (existsb (fun o => Nat.eqb (o_c o) c && Nat.eqb (o_r o) r && match o_verdict o with None => negb (o_unsub o) | Some _ => false end) (obligs st))
+      then (* the outstanding subscribe request with the smallest id is the one answered first *)
+           match filter (fun x => Nat.eqb (fst x) c && match snd (snd x) with (KSub, r', _) => Nat.eqb r' r | _ => false end) (reqs (base st)) with
+           | x0 :: xs =>
+               let x := fold_left (fun a b => if Nat.ltb (fst (snd b)) (fst (snd a)) then b else a) xs x0 in
+               upd st (base st) (areqs st) (invals st)
+                   ({| o_c := c; o_r := r; o_pos := apos st; o_req := None; o_verdict := None; o_unsub := false; o_sub := Some (fst (snd x)) |} :: obligs st)
+                   (toks st) (cur st) (evpos st)
+           | [] => st
+           end
+      else st
   | TTokenResetEv l => set_tids st (tids st) (l :: tresets st)
   | TTokenTask c tok tid =>
       let st := set_tids st (Client.set_k c tid (tids st)) (tresets st) in
@@ -221,7 +257,7 @@ Definition astep (st : astate) (e : tev) : astate :=
           upd st (base st) (areqs st) (invals st)
               (map (fun o => if Nat.eqb (o_c o) c' && Nat.eqb (o_r o) r && match o_req o with None => true | Some _ => false end
                                 && Client.mem tok (tokens_of st c')   (* a token in effect since the last quiescent point *)
-                             then {| o_c := o_c o; o_r := o_r o; o_pos := o_pos o; o_req := Some n; o_verdict := None; o_unsub := false |}
+                             then {| o_c := o_c o; o_r := o_r o; o_pos := o_pos o; o_req := Some n; o_verdict := None; o_unsub := false; o_sub := o_sub o |}
                              else o) (obligs st)) (toks st) (cur st) (evpos st)
       | MCall, Some c' =>
           if valid_grant st c' r (fun g => can_call (snd g) meth) then st else aviol_add st AUngrantedCall c' r
@@ -235,7 +271,12 @@ Definition astep (st : astate) (e : tev) : astate :=
           (invals st)
           (map (fun ob => match o_req ob with
                           | Some m => if Nat.eqb m n then {| o_c := o_c ob; o_r := o_r ob; o_pos := o_pos ob; o_req := o_req ob;
-                                                            o_verdict := Some verdict; o_unsub := false |} else ob
+                                                            o_verdict := Some verdict;
+                                                            (* a subscription still being established is not revoked by an
+                                                               unsubscribe event: a non-grant makes the subscribe fail, or
+                                                               belongs to another request and the subscribe checks again *)
+                                                            o_unsub := match o_sub ob with Some _ => negb verdict | None => false end;
+                                                            o_sub := o_sub ob |} else ob
                           | None => ob
                           end) (obligs st)) (toks st) (cur st) (evpos st)
   | TQ _ _ _ _ =>
